@@ -73,8 +73,10 @@ def _w(prop):
                                 ntasks=(2, 7), tz=False, crossmid=False, weeks=(1, 2), special_start=0.6, leaves=False), False),
             (2, "short-days", dict(res_choices=(60, 30), subslot=False, overrun=True, limits=True, tasklimits=True, nres=(1, 3), ntasks=(2, 6),
                                    tz=False, crossmid=False, days=(5, 9), special_start=0.5, leaves=False), False),
+            (3, "group-tree", dict(res_choices=(60, 30, 15), subslot=False, overrun=True, limits=True, tasklimits=False, nres=(2, 4), ntasks=(3, 8),
+                                   tz=False, crossmid=False, weeks=(1, 3), leaves=False, group_p=0.9, teams=True), False),
             (3, "ample", dict(core=True, subslot=False, res_choices=(60, 30, 15), limits=True, tasklimits=True, nres=(1, 3), ntasks=(2, 7),
-                              tz=False, crossmid=False), True),
+                              tz=False, crossmid=False, group_p=0.5), True),
         ]
     if prop == "C06":
         return [
